@@ -235,8 +235,9 @@ def selectFiles {φ : Type} (sortListing : Bool) (le : φ → φ → Bool) (sel 
   | .error e => .error e
   | .ok fs => .ok (if sel.hasRegex then fs.filter sel.regexOk else fs)
 
-/-- the current tree -/
+/-- the current tree: neither `H5SliceData` (`*.h5`) nor `CMRxReconDataset` (`*.mat`) sorts the listing -/
 def listingSortedCurrent : Bool := false
+def cmrListingSortedCurrent : Bool := false
 
 /-- the dataset classes built on `H5SliceData` -/
 inductive H5Class where
